@@ -208,6 +208,9 @@ def run_world(scn, shutdown_at, seed):
                         # RFC 8323 5.5: the receiver of a Release closes the connection -- after finishing what it has
                         # in flight (which may arrive at the releasing side after its shutdown() has returned)
                         loop.after(close_delay, lambda: p.is_open and p.close())
+                        # ... and it may still want to know whether the other side is alive
+                        loop.after(close_delay / 2, lambda: p.is_open and p.send({"code": rc.PING, "token": b"\x70", "options": [],
+                                                                                 "payload": b""}))
                     if m is None or not (1 <= m["code"] < 32) or m["token"] in answered:
                         continue
                     answered.add(m["token"])
